@@ -102,4 +102,13 @@ var pinned = []pinnedCase{
 		SiteTags: []string{"gen,try", "gen,finally", "iter,gen"},
 		Susp:     []int{1},
 	},
+	{
+		Note: "per-Runtime auxiliary state of a built-in across an abrupt exit: a callback invoked from inside Array.prototype.join (element toString) fails, the same surviving array is joined / stringified again by later calls and by the follow-up battery (seeded mutation C03-join-tostring-stack: Runtime.toStringStack not popped)",
+		Calls: []callSpec{
+			{Kind: kRunString, Src: "var el = {toString: function(){ ev('E', 'el'); probe(0); return 'x'; }}; var j1 = [1, el, 3];\nfunction f0(a){ ev('E', 'f0'); return j1.join('-'); }\nev('E', 'top'); try { ev('t+', 1); j1.join('-'); } catch (e) { ev('C', 1); }\nString(j1);\n"},
+			{Kind: kCallable, Name: "f0", Arg: 1},
+			{Kind: kTryString, Name: "j1"},
+		},
+		SiteTags: []string{"native,builtin,join"},
+	},
 }
